@@ -33,7 +33,7 @@ COMPONENTS = {"real": ["EoN.simulation._ListDict_", "EoN.Gillespie_SIR", "EoN.Gi
 
 def plan(tier):
     if tier == "quick":
-        return [("machine", 600), ("sir_walk", 300), ("sis_walk", 150), ("simple_walk", 250), ("complex_walk", 250)]
+        return [("machine", 320), ("sir_walk", 300), ("sis_walk", 100), ("simple_walk", 250), ("complex_walk", 250)]
     return [("machine", 40000), ("sir_walk", 15000), ("sis_walk", 8000), ("simple_walk", 12000), ("complex_walk", 12000)]
 
 
@@ -57,7 +57,7 @@ def run_one(family, rng, idx, tier):
     out = {}
     if family == "machine":
         try:
-            r, ops = lm.run_seeded(rng, 40 if tier == "quick" else 60, stats)
+            r, ops = lm.run_seeded(rng, 30 if tier == "quick" else 60, stats)
         except Skip as e:
             return {"skipped": "skip: %s" % str(e)[:60], "stats": {"evaluations": 0}}
         v = []
